@@ -499,8 +499,25 @@ func latin1ToUTF8(b []byte) string {
 	return string(r)
 }
 
-// classifyLatin sorts PrintableString content octets by the documented relaxation:
-// "iso" (ISO 8859-1 text: no C0/C1 controls), "t61" (has controls, letters otherwise, no NUL), "none".
+// t61Invalid lists, as inclusive ranges, the octets that the package documentation (comment of couldBeT61 in
+// asn1.go) names as never valid in a T.61 string - unassigned positions of the ITU-T T.61 code table - plus NUL,
+// which the fork refuses on purpose ("PayPal NUL"). Transcribed as data; the fork's functions are not called.
+var t61Invalid = [][2]byte{{0x00, 0x00}, {0x23, 0x24}, {0x5c, 0x5c}, {0x5e, 0x5e}, {0x60, 0x60}, {0x7b, 0x7b}, {0x7d, 0x7e}, {0xa5, 0xa6},
+	{0xac, 0xaf}, {0xb9, 0xba}, {0xc0, 0xc0}, {0xc9, 0xc9}, {0xd0, 0xdc}, {0xde, 0xdf}, {0xe5, 0xe5}, {0xff, 0xff}}
+
+func isT61Invalid(x byte) bool {
+	for _, r := range t61Invalid {
+		if x >= r[0] && x <= r[1] {
+			return true
+		}
+	}
+	return false
+}
+
+// classifyLatin sorts PrintableString content octets by the documented relaxation rule, in its documented order:
+// "printable" (nothing to relax), else "iso" (could be ISO 8859-1: no C0 control, nothing in 0x7F..0x9F -> Latin-1
+// transcoded to UTF-8), else "t61" (no octet that is invalid in T.61, no NUL -> octets verbatim), else "none"
+// (neither: lax mode must reject it too).
 func classifyLatin(b []byte) string {
 	bad := false
 	for _, x := range b {
@@ -521,13 +538,8 @@ func classifyLatin(b []byte) string {
 		return "iso"
 	}
 	for _, x := range b {
-		if x == 0 {
+		if isT61Invalid(x) {
 			return "none"
-		}
-		letter := 'a' <= x && x <= 'z' || 'A' <= x && x <= 'Z' || x == ' '
-		ctl := (x >= 1 && x < 0x20) || (x >= 0x7f && x < 0xa0)
-		if !letter && !ctl {
-			return "other" // outside what the generator emits; no expectation
 		}
 	}
 	return "t61"
@@ -619,7 +631,13 @@ func (c *encCtx) strBody(td *TD, v *Val, m mctx, gv reflect.Value, implicit bool
 			return 19, false, v.Latin, gv
 		case "none":
 			c.laxReject = true
-			c.cl("mal:printable-nul")
+			c.cl("mal:printable-neither-iso-nor-t61")
+			return 19, false, v.Latin, gv
+		case "printable":
+			// the drawn octets happen to be PrintableString characters ('*' and '&' are tolerated on decoding only)
+			gv.SetString(string(v.Latin))
+			c.nonRT = true
+			c.cl("str:printable-drawn")
 			return 19, false, v.Latin, gv
 		}
 	}
